@@ -79,6 +79,27 @@ def _work(item):
         out["diags"].append({"node": n, "at": d.get("at"), "failed": sorted(d["failed"]), "pc": d.get("pc"), "err": d.get("err"),
                              "spec_cand": d.get("cand"), "spec_law": d.get("law"), "ev": ev, "obs": obs,
                              "path": _path_to(tree, n) if tree is not None and n > 0 else []})
+    # a law of zero width has one value: what its draw returns (the observation point of C07) is the written parameter
+    if tree is not None:
+        stos = [e for e in mol.elems if not isinstance(e, I.Token)]
+        degenerate = all(e.dist is not None and e.dist.fam == "gauss" and float(e.dist.par[1]) == 0.0 for e in stos)
+        if degenerate and stos:
+            stack = [(0, 0)]
+            while stack:
+                i, nd_draws = stack.pop()
+                for k in tree.nodes[i]["kids"]:
+                    ev = tree.nodes[k - 1]["ev"]
+                    c = nd_draws
+                    if ev["kind"] == "draw":
+                        if c < len(stos):
+                            want = float(stos[c].dist.par[0])
+                            if abs(ev["val"] - want) > 1e-9 * max(1.0, abs(want)) and len(out["diags"]) < 200:
+                                out["diags"].append({"node": k, "at": "event", "failed": ["drawn-target-not-the-value-of-a-zero-width-law"], "pc": "draw", "err": "",
+                                                     "spec_cand": None, "spec_law": None, "ev": dict(ev), "obs": {"want": want, "got": ev["val"]},
+                                                     "path": _path_to(tree, k)})
+                                res.diags.append({"node": k})
+                        c += 1
+                    stack.append((k - 1, c))
     out["n_diags"] = len(res.diags)
     if tree is not None:
         # exact probability mass of the explored tree (C08): sum over leaves of the product of recorded step probabilities
